@@ -463,3 +463,52 @@ func RunScript(path string, args []string, script string, timeout time.Duration)
 		return Unknown
 	}
 }
+
+// RunScriptModel is RunScript plus a model for the named variables when the answer is sat.
+func RunScriptModel(path string, args []string, script string, vars []*Term, timeout time.Duration) (Result, map[string]uint64) {
+	if len(vars) > 0 {
+		var sb strings.Builder
+		sb.WriteString(script)
+		sb.WriteString("(get-value (")
+		for _, v := range vars {
+			sb.WriteString(v.Name)
+			sb.WriteByte(' ')
+		}
+		sb.WriteString("))\n")
+		script = sb.String()
+	}
+	cmd := exec.Command(path, args...)
+	cmd.Stdin = strings.NewReader(script)
+	done := make(chan []byte, 1)
+	go func() {
+		out, _ := cmd.Output()
+		done <- out
+	}()
+	select {
+	case out := <-done:
+		txt := string(out)
+		lines := strings.SplitN(strings.TrimSpace(txt), "\n", 2)
+		switch strings.TrimSpace(lines[0]) {
+		case "unsat":
+			return Unsat, nil
+		case "sat":
+			m := map[string]uint64{}
+			if len(vars) > 0 {
+				if len(lines) < 2 || strings.Contains(lines[1], "(error") {
+					return Unknown, nil
+				}
+				parseValues(strings.TrimSpace(lines[1]), m)
+				if len(m) < len(vars) {
+					return Unknown, nil
+				}
+			}
+			return Sat, m
+		}
+		return Unknown, nil
+	case <-time.After(timeout):
+		if cmd.Process != nil {
+			cmd.Process.Kill()
+		}
+		return Unknown, nil
+	}
+}
